@@ -125,11 +125,11 @@ func (c *ExecCtx) syncCall(st *State, fn *types.Func, f *ast.SelectorExpr, call 
 		return nil, true
 	case "(*sync.WaitGroup).Done":
 		c.wgAdd(st, f.X, IntLit(-1))
-		st.tags["wgdone:"+exprString(f.X)] = true
+		u.setTag(st, "wgdone:"+exprString(f.X))
 		return nil, true
 	case "(*sync.WaitGroup).Wait":
 		c.yield(st)
-		st.tags["wgwait:"+exprString(f.X)] = true
+		u.setTag(st, "wgwait:"+exprString(f.X))
 		return nil, true
 	case "(*sync.WaitGroup).Go":
 		// wg.Go(f): accounted and joined by construction
@@ -504,7 +504,7 @@ func (c *ExecCtx) execSend(st *State, x *ast.SendStmt) {
 	}
 	_ = CL
 	c.checkChanInv(st, x.Chan, v, x.Pos(), false)
-	st.tags["sent:"+exprString(x.Chan)] = true
+	u.setTag(st, "sent:"+exprString(x.Chan))
 	k := "$sent:" + exprString(x.Chan)
 	cur, ok := st.ghost[k]
 	if !ok {
@@ -582,7 +582,7 @@ func (c *ExecCtx) evalRecv(st *State, x *ast.UnaryExpr, commaOk bool) []Val {
 	if m := u.mergeStates(base, []*State{open, closedS}); m != nil {
 		st.become(m)
 	}
-	st.tags["recv:"+exprString(x.X)] = true
+	u.setTag(st, "recv:"+exprString(x.X))
 	return []Val{{res, ct.Elem()}, {okT, types.Typ[types.Bool]}}
 }
 
@@ -590,7 +590,9 @@ func (c *ExecCtx) closeChan(st *State, ch Val, e ast.Expr, pos token.Pos) {
 	u := c.u
 	key := c.chanKey(st, e)
 	if c.sweepOn() || true {
-		c.nilCheckKind(st, ch.T, pos, "chan", "close of nil channel")
+		if !(ch.T.Op == "sym" && u.captured[ch.T.Name]) {
+			c.nilCheckKind(st, ch.T, pos, "chan", "close of nil channel")
+		}
 		if st.closed[key] {
 			u.obligeStatic(st, "once", false, pos, "channel "+exprString(e)+" closed twice on this path")
 		} else {
@@ -598,7 +600,7 @@ func (c *ExecCtx) closeChan(st *State, ch Val, e ast.Expr, pos token.Pos) {
 		}
 	}
 	st.closed[key] = true
-	st.tags["closed:"+exprString(e)] = true
+	u.setTag(st, "closed:"+exprString(e))
 }
 
 func (c *ExecCtx) nilCheckKind(st *State, ref *Term, pos token.Pos, kind, what string) {
